@@ -26,6 +26,13 @@ ALL_ENCODINGS = ['utf-8', 'latin-1', 'cp1252', 'cp1251', 'koi8-r', 'gbk',
 NON_UTF = ['latin-1', 'cp1252', 'cp1251', 'koi8-r', 'gbk', 'shift_jis',
            'big5', 'euc_kr', 'iso8859-15']
 BUF_SIZES = [1, 3, 16, 512, 8192]
+# other accepted spellings of codec names (must name the same codec)
+ENC_ALIASES = {'utf-8': ['UTF8', 'utf_8', 'U8', 'UTF-8'],
+               'latin-1': ['latin1', 'iso-8859-1', 'L1', 'ISO8859-1'],
+               'cp1252': ['windows-1252', 'CP1252'],
+               'utf-16': ['UTF16', 'utf_16'], 'utf-32': ['UTF32', 'U32'],
+               'gbk': ['GBK', 'cp936'], 'shift_jis': ['sjis', 'Shift_JIS'],
+               'koi8-r': ['KOI8_R'], 'cp1251': ['windows-1251']}
 
 IN_PATH = '/sim/in.sql'
 OUT_PATH = '/sim/out.sql'
@@ -140,7 +147,7 @@ def draw_text(rng):
                            '\u00ff\u00fe\x00\x00']) + text
     if rng.random() < 0.3 and text.endswith('\n'):
         text = text.rstrip('\n')       # missing trailing newline
-    return text.replace('\r', '')
+    return text.replace('\r', '')     # CR is added deliberately in gen()
 
 
 def draw_read_plan(rng, data, inside, faulty, legal=True):
@@ -218,6 +225,14 @@ def gen(seed, idx, tier, ctx):
         non8 = [e for e in encs if e not in ('utf-8', 'ascii', 'utf-8-sig')]
         if non8:
             enc = rng.choice(non8)
+    crlf = False
+    if rng.random() < 0.08 and '\n' in text:
+        # carriage returns: only through the forms where no text-mode file
+        # layer of Python's translates newlines (str, bytes, StringIO, the
+        # hand-written stream); TextIOWrapper and the command line are left
+        # out for these texts
+        crlf = True
+        text = text.replace('\n', rng.choice(['\r\n', '\r\n', '\r']))
     data, inside = char_boundaries(text, enc)
     items = []
     n_items = rng.choice([3, 4, 5, 6])
@@ -226,6 +241,12 @@ def gen(seed, idx, tier, ctx):
     if len(text) > 8000:
         n_items = rng.choice([2, 3])
         kinds = ['stream', 'tstream', 'sio', 'cli', 'bytes_enc']
+    if crlf:
+        kinds = ['bytes_enc', 'bytes_utf8', 'bytes_fallback', 'sio',
+                 'tstream', 'tstream']
+    spell = enc
+    if rng.random() < 0.15 and enc in ENC_ALIASES:
+        spell = rng.choice(ENC_ALIASES[enc])
     for _ in range(n_items):
         kind = rng.choice(kinds)
         api = rng.choice(['parse', 'parsestream', 'split', 'format',
@@ -241,7 +262,7 @@ def gen(seed, idx, tier, ctx):
             opts = {'strip_semicolon': True}
         if kind == 'bytes_enc':
             items.append({'k': 'api', 'form': 'bytes_enc', 'api': api,
-                          'opts': opts, 'enc': enc})
+                          'opts': opts, 'enc': enc, 'spell': spell})
         elif kind == 'bytes_utf8':
             items.append({'k': 'api', 'form': 'bytes_utf8', 'api': api,
                           'opts': opts})
@@ -294,7 +315,7 @@ def gen(seed, idx, tier, ctx):
             src = rng.choice(['file', 'stdin'])
             dst = rng.choice(['stdout', 'file'])
             it = {'k': 'cli', 'in': src, 'out': dst, 'flags': argv,
-                  'opts': copts, 'enc': enc,
+                  'opts': copts, 'enc': enc, 'spell': spell,
                   'stdout_enc': rng.choice(['utf-8', enc]),
                   'buf': rng.choice(BUF_SIZES),
                   'obuf': rng.choice(BUF_SIZES),
@@ -364,7 +385,7 @@ def run_api_item(item, text, ref, stat, viols, ii):
     enc_arg = None
     if form == 'bytes_enc':
         obj = text.encode(item['enc'])
-        enc_arg = item['enc']
+        enc_arg = item.get('spell') or item['enc']
     elif form == 'bytes_utf8':
         obj = text.encode('utf-8')
     elif form == 'bytes_fallback':
@@ -507,8 +528,9 @@ def run_cli_item(item, text, ref, stat, viols, ii, want_bytes=False):
     stderr, se_sink = iofake.make_stdout({}, iofake.Chan(), 'utf-8',
                                          name='<stderr>')
     argv += list(item.get('flags') or [])
-    if enc != 'utf-8' or item.get('explicit_enc'):
-        argv += ['--encoding', enc]
+    if enc != 'utf-8' or item.get('explicit_enc') or \
+            (item.get('spell') or enc) != enc:
+        argv += ['--encoding', item.get('spell') or enc]
     saved = sys.stdin, sys.stdout, sys.stderr
     sys.stdin, sys.stdout, sys.stderr = stdin, stdout, stderr
     cli.open = fs.open
@@ -661,6 +683,8 @@ def run(spec, refs):
             sigs_nt.add(sig)
         digest = (digest * 1000003 + chan.digest) & 0xFFFFFFFFFFFFFFFF
     stat('items', len(spec['items']))
+    if '\r' in text:
+        stat('texts_with_carriage_return')
     if len(text) > 8192:
         stat('large_texts')
     stat('pop_' + ('fault' if spec.get('faulty') else 'clean'))
